@@ -479,6 +479,16 @@ def run_history(seed, scratch: Path, rep: Report, *, nops, weights, checks, conc
             if readable != own:
                 viol('details', 'snapshot details (note, time, files) are %s to a user who %s its key' %
                      ('shown' if readable else 'hidden', 'does not hold' if not own else 'holds'), {'caller': user['name'], 'owner': present[n]['owner']})
+        # the same listing with another choice of columns (also without the name): one row per snapshot of the caller's family, whatever is shown
+        from replicat.utils import SnapshotListColumn as SC
+        cols = rng.choice([[SC.TIMESTAMP, SC.FILE_COUNT, SC.SIZE], [SC.NOTE], [SC.SIZE, SC.NAME], [SC.FILE_COUNT], [SC.NOTE, SC.TIMESTAMP]])
+        buf = io.StringIO()
+        with contextlib.redirect_stdout(buf):
+            await cmd(r.list_snapshots(header=False, columns=cols), 'list-snapshots')
+        nrows = len([ln for ln in buf.getvalue().splitlines() if ln.strip()])
+        if nrows != len(want_visible):
+            viol('visibility', f'list-snapshots with columns {[c.value for c in cols]} shows {nrows} row(s), the caller\'s key family has {len(want_visible)} snapshot(s)',
+                 {'caller': user['name']})
         buf = io.StringIO()
         with contextlib.redirect_stdout(buf):
             await r.list_files(header=False, columns=[repo_hist_columns().SNAPSHOT_NAME, repo_hist_columns().PATH])
@@ -547,7 +557,7 @@ def run_history(seed, scratch: Path, rep: Report, *, nops, weights, checks, conc
                         await world.repo().unlock(password=pw_, key=text_)
                     except Exception as e:
                         viol('unlock', f'the key printed by add-key does not open with its own password ({type(e).__name__})', {'kdf': kdf['name'], 'via': 'stdout'})
-                for bad in (pw_[:-1], pw_ + b'x', pw_[:64] + b'tail-two', pw_[:64], b'H' * 99 + b'I'):
+                for bad in (pw_[:-1], pw_ + b'x', pw_[:64] + b'tail-two', pw_[:64], b'H' * 99 + b'I', pw_ + b'\n', pw_ + b'\r\n', pw_ + b' '):
                     if bad == pw_:
                         continue
                     try:
@@ -573,7 +583,9 @@ def run_history(seed, scratch: Path, rep: Report, *, nops, weights, checks, conc
                     break
                 except Exception:
                     pass
-            for bad in (u['password'] + b'x', u['password'][:-1], b'', u['password'][:64]):
+            pw0 = u['password']
+            # ... and passwords a forgiving reader would map to the right one: line breaks / blanks around it, another case
+            for bad in (pw0 + b'x', pw0[:-1], b'', pw0[:64], pw0 + b'\n', pw0 + b'\r\n', pw0 + b'\r', pw0 + b' ', b' ' + pw0, pw0 + b'\n\n', pw0.swapcase()):
                 if bad == u['password']:
                     continue
                 try:
